@@ -82,7 +82,11 @@ class Model:
             self.mods["classifier"] = self.clf
 
     def step(self, xs, t, labels, reward):
-        outs, _ = C11._layer_step(self.lc, self.layer, {k: v[t] for k, v in xs.items()})
+        if self.lc["kind"] == "serial" and self.lc["conns"]["c0"]["syn"]["cls"] == "DeltaPlusCurrent" and "inj:c0" in xs:
+            # the documented second input of a delta-plus synapse: injected current
+            outs = {"n0": self.layer(xs["c0"][t].float(), xs["inj:c0"][t])}
+        else:
+            outs, _ = C11._layer_step(self.lc, self.layer, {k: v[t] for k, v in xs.items() if not k.startswith("inj:")})
         obs = {f"out:{k}": v.detach().clone() for k, v in outs.items()}
         if self.layer.training:  # training loop as a user writes it: no trainer calls / updates while evaluating
             for tr, tc in self.trainers:
@@ -159,6 +163,8 @@ def _data(case, seed):
             continue
         inshape, _ = B.conn_shapes(c)
         xs[name] = torch.tensor(B.spikes_from(seed + L.hash_name(name), T, (Bsz,) + inshape, case["rate"]))
+        if c["syn"]["cls"] == "DeltaPlusCurrent":
+            xs["inj:" + name] = torch.tensor(B.dyadic(seed + 77 + L.hash_name(name), (T, Bsz) + inshape, -8, 40, 4), dtype=torch.float32)
     rng = np.random.Generator(np.random.PCG64(seed + 5))
     ncls = case["classifier"]["classes"] if case["classifier"] else 2
     labels = torch.tensor(rng.integers(0, ncls, size=(T, Bsz)), dtype=torch.int64)
@@ -227,6 +233,10 @@ def run_case(case):
         ok0, _ = B.states_equal(stA[k - 1], Bm.state())
         differed += 0 if ok0 else 1
         with impl(f"load_state_dict(strict=True) of checkpoint taken after step {k} into an instance pre-run {case['prerun']} steps"):
+            if case.get("target_trainer_eval_at_load"):
+                for tg in targets:  # the target's trainers are evaluating when the state arrives, and resume training afterwards
+                    for tr, _ in tg.trainers:
+                        tr.eval()
             if len(targets) > 1:
                 # ONE deserialised checkpoint loaded into two live instances; both are then stepped
                 sd = torch.load(io.BytesIO(blobs[k]), weights_only=False)
@@ -234,6 +244,11 @@ def run_case(case):
                     tg.load(sd)
             else:
                 Bm.load(blobs[k])
+        if case.get("target_trainer_eval_at_load"):
+            with impl("trainer.train() after loading"):
+                for tg in targets:
+                    for tr, _ in tg.trainers:
+                        tr.train()
         ok, why = B.states_equal(stA[k - 1], Bm.state())
         check(ok, "restore:state", lambda: f"checkpoint after step {k}: state right after loading differs from the source: {why}")
         for t in range(k, T):
@@ -310,6 +325,7 @@ def case_strategy(draw, tier="quick"):
         "prerun": draw(st.sampled_from([1, 1, 2, 5])), "trainers": trainers,
         "container": draw(st.booleans()),
         "twins": draw(st.integers(0, 3)) == 0,
+        "target_trainer_eval_at_load": draw(st.booleans()),
         "prerun_tail_eval": draw(st.booleans()),
         "switches": draw(st.lists(st.tuples(st.integers(2, T - 1), st.sampled_from(["eval", "eval", "train"])).map(list), max_size=2,
                                   unique_by=lambda x: x[0])),
